@@ -437,9 +437,17 @@ def gen_guards() -> str:
     # jump budget
     rel = "handlers/jump_to_stage/handler.py"
     n = _find_if(rel, ["JumpToStageHandler", "_check_jump_count"], "jump_count")
-    if not any(isinstance(x, ast.Return) and ast.unparse(x) == "return False" for x in n.body):
+    cjf = _find_func(_find_class(_parse(rel), "JumpToStageHandler", rel).body, "_check_jump_count", rel)
+    test = n.test
+    if any(isinstance(x, ast.Return) and ast.unparse(x) == "return False" for x in n.body):
+        pass                                   # `if <exhausted>: ...; return False`
+    elif (len(n.body) >= 1 and ast.unparse(n.body[-1]) == "return True" and not n.orelse and any(isinstance(x, ast.If) and x.lineno == n.lineno for x in cjf.body)
+          and ast.unparse(cjf.body[-1]) == "return False"):
+        # flipped: `if <within the limit>: return True` ... `return False` at the end of the function
+        test = test.operand if isinstance(test, ast.UnaryOp) and isinstance(test.op, ast.Not) else ast.UnaryOp(op=ast.Not(), operand=test)
+    else:
         _fail(rel, n, "_check_jump_count: exhausted branch does not return False")
-    t = Tr(rel, {"jump_count": ("c", "Z"), "max_jumps": ("m", "Z")}).term(n.test)
+    t = Tr(rel, {"jump_count": ("c", "Z"), "max_jumps": ("m", "Z")}).term(test)
     out.append(f"(* {rel}:{n.lineno} `if {ast.unparse(n.test)}` -> fail the source stage *)")
     out.append(f"Definition jump_exhausted (c m : Z) : bool := {t}.\n")
     from harness.translate import _find_assign
@@ -447,8 +455,16 @@ def gen_guards() -> str:
     if not (isinstance(d, ast.Constant) and isinstance(d.value, int) and d.value >= 0):
         _fail(rel, d, "DEFAULT_MAX_JUMPS is not a natural constant")
     out.append(f"Definition default_max_jumps : Z := {d.value}%Z.\n")
-    cj = _find_func(_find_class(_parse(rel), "JumpToStageHandler", rel).body, "_check_jump_count", rel)
+    jcls = _find_class(_parse(rel), "JumpToStageHandler", rel)
+    cj = _find_func(jcls.body, "_check_jump_count", rel)
     order = [ast.unparse(x.value) for x in ast.walk(cj) if isinstance(x, ast.Assign) and ast.unparse(x.targets[0]) == "max_jumps"]
+    if len(order) == 1 and order[0].startswith("self.") and order[0].endswith("(execution, source_stage)"):
+        # the lookup was extracted into a helper method taking (execution, source_stage): read the order there
+        helper = _find_func(jcls.body, order[0][len("self."):-len("(execution, source_stage)")], rel)
+        if [a.arg for a in helper.args.args if a.arg != "self"] != ["execution", "source_stage"] or \
+                ast.unparse(helper.body[-1]) != "return max_jumps":
+            _fail(rel, helper, "max_jumps helper has an unexpected shape")
+        order = [ast.unparse(x.value) for x in ast.walk(helper) if isinstance(x, ast.Assign) and ast.unparse(x.targets[0]) == "max_jumps"]
     if order != ["execution.context.get('_max_jumps')", "source_stage.context.get('_max_jumps')", "DEFAULT_MAX_JUMPS"]:
         raise TranslateError(f"{rel}: max_jumps lookup order changed: {order}")
     jc = [ast.unparse(x.value) for x in ast.walk(cj) if isinstance(x, ast.Assign) and ast.unparse(x.targets[0]) == "jump_count"]
